@@ -1,5 +1,6 @@
 import LinfaSpec.Proofs.Metrics
 import LinfaSpec.Proofs.MetricsRoc
+import LinfaSpec.Proofs.MetricsRoc2
 import LinfaSpec.Proofs.MetricsReal
 import LinfaSpec.Proofs.MetricsMore
 
@@ -444,6 +445,55 @@ theorem auc_eq_mannWhitney (eps : α) (heps : 0 ≤ eps) (samples : List (α × 
 example : auc (0 : Rat) none [(0, true), (0, false), (1/2, false), (1, true)] = 5 / 8 ∧
     mannWhitney [((0 : Rat), true), (0, false), (1/2, false), (1, true)] = 5 / 8 := by
   refine ⟨by decide +kernel, by decide +kernel⟩
+
+/-- **the ROC curve and its thresholds from first principles** (non-negative scores whose distinct
+values differ by more than `eps`): the thresholds are the distinct scores in increasing order; the
+curve has, for every threshold `s`, the point (fraction of positives scored below `s`, fraction of
+negatives scored below `s`) and ends with `(P/P, N/N)`.  `nBelow l c (some s)` is the number of
+samples of class `c` with score `< s`, `nBelow l c none` the number of samples of class `c`. -/
+theorem roc_curve_def (eps : α) (heps : 0 ≤ eps) (samples : List (α × Bool))
+    (hnn : ∀ x ∈ samples, 0 ≤ x.1)
+    (hsep : ∀ x ∈ samples, ∀ y ∈ samples, x.1 ≠ y.1 → eps < |x.1 - y.1|) :
+    ∃ thr : List α, thr.Pairwise (· < ·) ∧ (∀ s, s ∈ thr ↔ ∃ y ∈ samples, y.1 = s) ∧
+      (roc eps none samples).2 = thr ∧
+      (roc eps none samples).1 =
+        (thr.map fun s => ((nBelow samples true (some s) : α) / (nBelow samples true none : α),
+                           (nBelow samples false (some s) : α) / (nBelow samples false none : α))) ++
+        [((nBelow samples true none : α) / (nBelow samples true none : α),
+          (nBelow samples false none : α) / (nBelow samples false none : α))] :=
+  roc_shape eps heps samples hnn hsep
+
+example : nBelow [((0 : Rat), true), (0, false), (1/2, false), (1, true)] false (some (1 : Rat)) = 2 ∧
+    nBelow [((0 : Rat), true), (0, false), (1/2, false), (1, true)] true none = 2 := by
+  refine ⟨by decide +kernel, by decide +kernel⟩
+
+/-- **the ROC curve, its thresholds and the AUC are unchanged by one permutation applied to scores
+and labels together** -/
+theorem perm_invariant_roc (eps : α) (heps : 0 ≤ eps) (samples samples' : List (α × Bool))
+    (hnn : ∀ x ∈ samples, 0 ≤ x.1)
+    (hsep : ∀ x ∈ samples, ∀ y ∈ samples, x.1 ≠ y.1 → eps < |x.1 - y.1|)
+    (h : samples.Perm samples') :
+    roc eps none samples = roc eps none samples' ∧ auc eps none samples = auc eps none samples' := by
+  have hnn' : ∀ x ∈ samples', 0 ≤ x.1 := fun x hx => hnn x (h.mem_iff.mpr hx)
+  have hsep' : ∀ x ∈ samples', ∀ y ∈ samples', x.1 ≠ y.1 → eps < |x.1 - y.1| :=
+    fun x hx y hy => hsep x (h.mem_iff.mpr hx) y (h.mem_iff.mpr hy)
+  obtain ⟨thr, hs, hm, ht, hc⟩ := roc_shape eps heps samples hnn hsep
+  obtain ⟨thr', hs', hm', ht', hc'⟩ := roc_shape eps heps samples' hnn' hsep'
+  have hthr : thr = thr' := by
+    apply sorted_ext hs hs'
+    intro a
+    rw [hm a, hm' a]
+    constructor
+    · rintro ⟨y, hy, hya⟩; exact ⟨y, h.mem_iff.mp hy, hya⟩
+    · rintro ⟨y, hy, hya⟩; exact ⟨y, h.mem_iff.mpr hy, hya⟩
+  have hroc : roc eps none samples = roc eps none samples' := by
+    apply Prod.ext
+    · rw [hc, hc', hthr]
+      simp only [nBelow_perm h]
+    · rw [ht, ht', hthr]
+  exact ⟨hroc, by unfold auc; rw [hroc]⟩
+
+example : ([((0 : Rat), true), (1/2, false), (1, true)]).Perm [(1, true), (0, true), (1/2, false)] := by decide +kernel
 
 /-- the defect that was repaired: with the original sentinel `s0 = 0.0` the curve of the same four
 samples does not start at the origin and the area is 1/2, not the Mann-Whitney value 5/8 -/
